@@ -25,6 +25,23 @@ PROP = dict(
         "decoding is modelled for well-formed input and for the dispatch errors (unknown id, liteServer.error, short "
         "answer); totality/allocation on arbitrary malformed input is property C08",
     ],
-    partial=[],
+    partial=[
+        "CtorIdIsCrc32 (every id of lite_api.tl = CRC-32 of its declaration) is stated as a def, not proved: it is false "
+        "on the current file for three declarations (known findings) and one id is pinned upstream; it is evaluated per "
+        "declaration on every run by the model driver (spec op tl.crcid, a finite computation); the kernel-checked part "
+        "is ctor_id_is_crc32_partial (the constants used by hand-written client code) and the witness "
+        "ctor_id_is_crc32_counterexample",
+        "X6 (generator output == checked-in generated.go / integers.go after gofmt) is an input-free comparison of two "
+        "artefacts, evaluated by go.regen.*; no theorem",
+    ],
+    level="proof",
+    level_text="theorems for all inputs: round trip / prefix-freeness / layout clauses of the TL schema semantics for "
+               "every well-formed schema (TongoProofs.C09, functional induction on the encoder), instantiated at the "
+               "regenerated schema of lite_api.tl (wf_liteapi by kernel evaluation), request envelope, request decoder "
+               "table, answer handling, hand-written codecs (TongoProofs.C10). Tie: every generated type, request "
+               "struct, client method (against a stub connection), answer path and the request decoder of the real Go "
+               "code is executed on schema-directed random values and compared with the model, which is the "
+               "specification for these ops; go.* oracles check round trip, self-delimitation and layout on the "
+               "implementation alone",
     line_timeout="180s",
 )
